@@ -67,6 +67,7 @@ def plan(tier, seed):
     jobs.append({'space': 'mutate', 'tier': tier, 'weight': 50})
     jobs.append({'space': 'debuglog', 'tier': tier, 'weight': 200})
     jobs.append({'space': 'punct', 'tier': tier, 'weight': 300})
+    jobs.append({'space': 'templates-together', 'tier': tier, 'weight': 50})
     if b.get('lists3'):
         for lo, hi in core.chunks(len(words(2)), 32):
             jobs.append({'space': 'lists3', 'lo': lo, 'hi': hi, 'tier': tier,
@@ -156,6 +157,50 @@ def run(job, seed):
         acc.sample(space, {'x': form, 'target': target, 'roles': rl})
     elif space == 'mutate':
         run_mutate(acc, enf, 3 if job['tier'] == 'quick' else 4)
+    elif space == 'templates-together':
+        # several role templates with DIFFERENT target keys live in one
+        # process (one rule set, one enforcer): each is evaluated against
+        # targets holding every subset of the keys - a template needs its own
+        # keys and nothing else
+        from oslo_policy import _checks, _parser
+        keys = ('ka', 'kb', 'kc')
+        templates = {'ta': '%(ka)s', 'tb': '%(kb)s', 'tab': '%(ka)s%(kb)s',
+                     'tc': 'x-%(kc)s', 'lit': 'ab'}
+        for order in itertools.permutations(sorted(templates)):
+            if order[0] > order[-1]:
+                continue          # one of each mirror pair
+            enf2 = world.bare_enforcer()
+            rules = {}
+            for n in order:
+                rules[n] = 'role:' + templates[n]
+            world.set_rules(enf2, rules)
+            # objects built directly and through the list syntax as well
+            _checks.RoleCheck('role', '%(kz)s')
+            _parser.parse_rule([['role:%(ky)s']])
+            for mask in range(8):
+                target = {k: 'a' if i < 2 else 'b'
+                          for i, k in enumerate(keys) if mask >> i & 1}
+                for rl in ([], ['a'], ['aa'], ['x-b'], ['a', 'aa', 'x-b'],
+                           ['ab']):
+                    for n in order:
+                        exp = rleaf.role_allows(templates[n], target,
+                                                _creds(rl))
+                        acc.ev()
+                        got = world.decide(enf2, n, target, _creds(rl))
+                        if got != ('ok', exp):
+                            acc.violation(
+                                'templates-together|%s|%s' % (
+                                    n, 'allows' if got == ('ok', True) else
+                                    'denies' if got[0] == 'ok' else got[1]),
+                                'role:%s next to the other templates, target '
+                                '%r, roles %r: got %r expected %r' %
+                                (templates[n], target, rl, got, exp),
+                                {'x': templates[n], 'target': target,
+                                 'roles': rl, 'order': list(order)}, exp, got,
+                                space)
+                        acc.outcome('allow' if exp else 'deny')
+            acc.case(space, True)
+        acc.sample(space, templates)
     elif space == 'punct':
         # role names built from a second alphabet: a letter and the
         # punctuation real role names carry (service:role, a.b, a/b, a@b) -
